@@ -276,7 +276,7 @@ def prop_value(rng, mapping):
 def gen_oaw(rng, style=None):
     """One parameter set for origin_and_widths (all numbers dyadic)."""
     from emg3d import meshes
-    style = style or rng.choice('AAABBCCD')
+    style = style or rng.choice('AAEEEBBCCD')
     freq = rng.choice([0.25, 0.5, 1.0, 2.0, 4.0, 8.0]) * (-1 if rng.random() < 0.25 else 1)
     mapping = rng.choice(MAPS)
     props = [prop_value(rng, mapping) for _ in range(rng.choice([1, 1, 2, 3, 3]))]
@@ -321,7 +321,7 @@ def gen_oaw(rng, style=None):
         sea = center + rng.choice([-1, 0, 1, 2, 3, 5, 8, 11, 20, 27, 40, 64]) * u / 8
         if rng.random() < 0.5:
             sea = center + rng.randint(1, 9) * dmin * rng.choice([0.5, 1.0, 1.0, 1.0625])
-    if style == 'A':
+    if style in 'AE':
         s0, s1 = 1.0, 1 + rng.randint(3, 14) / 1024
     elif style == 'B':
         s0, s1 = 1.0, rng.choice([1.25, 1.5, 1.5, 2.0, 1.125])
@@ -334,14 +334,14 @@ def gen_oaw(rng, style=None):
     if rng.random() < 0.04:
         s0, s1 = rng.choice([(0.9375, 1.25), (1.0, 0.9375), (1.25, 1.0)])
     lfc = rng.random() < 0.3
-    if style in 'AC':
+    if style in 'ACE':
         max_buffer = rng.randint(0, 8) * u / 2
         lam = rng.choice([1.0, 0.5, 0.0625, 0.125])
     else:
         max_buffer = rng.choice([100000, 100000, 8 * u, 20 * u, 3 * u])
         lam = rng.choice([0.0625, 0.125, 0.125, 0.25, 0.5])
     pool = [4, 6, 8, 10, 12, 16, 20, 24, 32]
-    if style in 'AC':
+    if style in 'ACE':
         pool += [40, 48]
     k = rng.randint(1, 4)
     cells = rng.sample(pool, k)
@@ -349,6 +349,16 @@ def gen_oaw(rng, style=None):
         cells.append(cells[0])
     if rng.random() < 0.05:
         cells = [int(x) for x in meshes.good_mg_cell_nr(rng.choice([24, 32, 40]), 5, rng.choice([2, 3]))]
+    if style == 'E':
+        # marginal buffers: just more than m cells of the last width, so that the
+        # buffer stretching ca has to leave 1.0; consecutive even cell numbers
+        m = rng.randint(1, 5)
+        max_buffer = m * dmin * (1 + rng.choice([1 / 256, 1 / 128, 1 / 64, 1 / 32]))
+        lam = 1.0
+        lo_n = rng.choice([4, 6, 8, 10, 12, 14, 16])
+        cells = list(range(lo_n, lo_n + 2 * rng.randint(4, 9), 2))
+        if sea is not None and rng.random() < 0.6:
+            sea = None
     case.update(center=center, domain=domain, distance=distance, vector=vector, seasurface=sea,
                 stretching=[s0, s1], limits=lim, pps=pps, lambda_factor=lam,
                 max_buffer=float(max_buffer), lambda_from_center=lfc, cell_numbers=cells,
